@@ -1,11 +1,26 @@
 ------------------------------- MODULE MC_Big -------------------------------
 (* C02 / C10: loading regions and headers up to 1 MiB (structural images: zero fill + patches). *)
 EXTENDS MCBase
-CONSTANTS MaxPow
+CONSTANTS MaxPow, HugeLen8s
 Pow2(k) == LET RECURSIVE P(_) P(i) == IF i = 0 THEN 1 ELSE 2 * P(i - 1) IN P(k)
 Sizes == UNION { {Pow2(k) - 8, Pow2(k) - 4, Pow2(k), Pow2(k) + 1, Pow2(k) + 8, 3 * Pow2(k - 1)} : k \in 7..MaxPow }
 BigParams == { [what |-> w, T |-> T, endok |-> e] : w \in {"info", "header"}, T \in Sizes, e \in BOOLEAN }
+             \* regions of 1 GiB .. 4 GiB - 8 (T = -1; the size is len8 * 8): nothing limits a structure below what its 32-bit size field can say
+             \cup { [what |-> w, T |-> -1, len8 |-> n, endok |-> e] : w \in {"info", "header"}, n \in HugeLen8s, e \in BOOLEAN }
+HugeCase(p) ==
+  LET sz == Shl3(U32Bytes(p.len8)) IN
+  IF p.what = "info" THEN
+     [memx |-> [huge |-> [len8 |-> p.len8, endok |-> p.endok,
+                          patch |-> << [off8 |-> 0, b |-> sz \o <<0, 0, 0, 0>>],
+                                       [end |-> 8, b |-> IF p.endok THEN EndTagBytes ELSE <<0, 0, 0, 0, 9, 0, 0, 0>>] >>]],
+      mem |-> <<>>, al |-> 0, calls |-> <<[op |-> "load"]>>, desc |-> [area |-> "big"] @@ p]
+  ELSE
+     [memx |-> [huge |-> [len8 |-> p.len8, endok |-> p.endok,
+                          patch |-> << [off8 |-> 0, b |-> HdrMagic \o U32Bytes(0) \o sz
+                                                         \o (IF p.endok THEN ChecksumBytes(HdrMagic, U32Bytes(0), sz) ELSE <<1, 2, 3, 4>>)] >>]],
+      mem |-> <<>>, al |-> 0, calls |-> <<[op |-> "hload"]>>, desc |-> [area |-> "big"] @@ p]
 BigCase(p) ==
+  IF p.T = -1 THEN HugeCase(p) ELSE
   LET len == RoundUp8(p.T) + 8
       tail == IF p.endok THEN EndTagBytes ELSE <<0, 0, 0, 0, 9, 0, 0, 0>> IN
   IF p.what = "info" THEN
